@@ -840,6 +840,9 @@ func (r *runner) targetName() string {
 }
 
 func (r *runner) violate(tc *tcase, sig, detail string) {
+	if rp := r.c.Replay; rp != nil && (rp.Sig != sig || rp.Scenario != tc.String()) {
+		return // replaying one recorded violation: report only that one
+	}
 	r.c.AddViolation(driver.Violation{Tier: r.c.Tier, Job: r.c.Job, Scenario: tc.String(), Sig: sig,
 		Detail: "call: " + tc.String() + "\ntarget: " + r.targetName() + "\n" + detail})
 }
@@ -925,6 +928,7 @@ func (r *runner) eval(tc *tcase) {
 			r.violate(tc, fam+": a request was refused by the registry although the call succeeded", strings.Join(t.reg.refused, "\n"))
 			return
 		}
+		npush := len(t.rec.pushes)
 		if e.createdGiven {
 			// identical inputs, fixed created: same target (now holding everything) and a fresh one
 			c.Count("determinism_checked", 1)
@@ -947,7 +951,7 @@ func (r *runner) eval(tc *tcase) {
 		}
 		if len(e.invented) > 0 && !r.held && tc.mi == 4 {
 			data, _ := fetch(t.inner, got)
-			c.Sample(fmt.Sprintf("%s on %s -> %s %s size %d; pushes=%d; manifest=%s", tc.String(), r.targetName(), got.MediaType, got.Digest, got.Size, len(t.rec.pushes), trunc(data)))
+			c.Sample(fmt.Sprintf("%s on %s -> %s %s size %d; Push calls=%d; manifest=%s", tc.String(), r.targetName(), got.MediaType, got.Digest, got.Size, npush, trunc(data)))
 		}
 	}
 }
